@@ -367,6 +367,10 @@ func (P *Program) registerStd() {
 		return res
 	})
 	P.reg("strings.ToUpper", s1(strings.ToUpper))
+	P.reg("strings.ReplaceAll", func(fr *frame, args []value) value {
+		in := fr.in
+		return strings.ReplaceAll(in.goStr(args[0], "strings arg"), in.goStr(args[1], "strings arg"), in.goStr(args[2], "strings arg"))
+	})
 	P.reg("strings.TrimSpace", s1(strings.TrimSpace))
 	P.reg("strings.Contains", func(fr *frame, args []value) value {
 		in := fr.in
